@@ -7,6 +7,11 @@ HERE = os.path.dirname(os.path.dirname(os.path.abspath(__file__)))
 
 # id -> (engine, technique, level text, level note, design ref)
 CHECKS = {
+    "C11": ("XH", "CrossHair-driven enumeration (z3 choice variables for container skeleton / nesting offset) with native sweeps over every string length around the wrapping thresholds; "
+            "json.loads / ast.literal_eval read-back",
+            "bounded exhaustive exploration with exhaustion certificate: 10 container skeletons x nesting offsets 0/2/4 x every length 0..215 of the varying element, threshold-adjacent length pairs, "
+            "long lists/dicts of 1-60 elements (per-line wrapping), all triples of simple values",
+            "lengths are swept concretely (string repetition and the C readers cannot stay symbolic); floats from a fixed finite set", "DESIGN.md 3/C11"),
     "C05": ("XH", "CrossHair-driven exhaustive enumeration (z3 choice variables for first item / trailing delimiter / separator style, native sweep of the remaining items); real parser with default cleanup",
             "bounded exhaustive exploration with exhaustion certificate: all 8 legal ListProds option combinations, 4 MapProds combinations and ProdSequence over containers of <= 3 items "
             "from a pool of nested values (depth 3, repeated keys), 4 separator styles, final delimiter and absent container",
